@@ -16,7 +16,7 @@ from .tlc import run_tlc
 FAMILIES = [("pcbo", "PCBO", "PCBO", ["a", "b", "c"]), ("pcso", "PCSO", "PCSO", ["a", "b", "c"]),
             ("qubo", "QUBO", "PUBO", ["a", "b", "c"]), ("quso", "QUSO", "PUSO", ["a", "b", "c"]),
             ("bmat", "PUBOMatrix", "QUBOMatrix", [0, 2, 3]), ("smat", "PUSOMatrix", "QUSOMatrix", [0, 2, 3])]
-TRACE_INVS = ["TermsMatch", "KindMatch", "ImplNoRaise", "ImplUnchangedOthers", "ImplInfoSame", "ImplCopySame", "ImplAncCovers",
+TRACE_INVS = ["TermsMatch", "KindMatch", "ImplNoRaise", "ImplUnchangedOthers", "ImplInfoSame", "ImplCopySame", "ImplAncCovers", "ImplNoAlias",
               "NotStuck", "Drift"]
 
 
